@@ -943,6 +943,9 @@ func c08FlvMux(w io.Writer, hv, ha bool, tags []c08Tag) (hdrOK bool, nOK int, er
 
 // c08FlvDemux reads header + tags through the real demuxer until the first error.
 func c08FlvDemux(rd io.Reader) (hdr string, got []string, err error, status string) {
+	var held [][]byte
+	var heldTy []uint8
+	var heldTs []uint32
 	status = h.Safe(func() string {
 		d, e := flv.NewDemuxer(rd)
 		if e != nil {
@@ -972,10 +975,14 @@ func c08FlvDemux(rd io.Reader) (hdr string, got []string, err error, status stri
 			if uint32(len(body)) != size {
 				return "short-tag-nil-error"
 			}
-			got = append(got, fmt.Sprintf("%d.%d.%s", uint8(ty), ts, h.Hex(body)))
+			heldTy, heldTs, held = append(heldTy, uint8(ty)), append(heldTs, ts), append(held, body)
 		}
 		return "no-error"
 	})
+	// rendered only now: the tags are what the application still holds after the failing read
+	for i, body := range held {
+		got = append(got, fmt.Sprintf("%d.%d.%s", heldTy[i], heldTs[i], h.Hex(body)))
+	}
 	return
 }
 
